@@ -1534,6 +1534,15 @@ class Record_AAAA(tputil.FancyEqMixin, tputil.FancyStrMixin):
         return hash(self.address)
 
 
+def _a6SuffixOctets(prefixLen: int) -> int:
+    """
+    The number of address suffix octets in the RDATA of an A6 record with the
+    given prefix length: C{128 - prefixLen} bits, padded with leading zero bits
+    to a whole number of octets (RFC 2874 section 3.1).
+    """
+    return -((prefixLen - 128) // 8)
+
+
 @implementer(IEncodableRecord)
 class Record_A6(tputil.FancyStrMixin, tputil.FancyEqMixin):
     """
@@ -1593,7 +1602,9 @@ class Record_A6(tputil.FancyStrMixin, tputil.FancyEqMixin):
         self.prefixLen = prefixLen
         self.suffix = socket.inet_pton(AF_INET6, suffix)
         self.prefix = Name(prefix)
-        self.bytes = int((128 - self.prefixLen) / 8.0)
+        # RFC 2874 section 3.1: "exactly enough octets to contain a number of
+        # bits equal to 128 minus prefix length", that is, rounded up.
+        self.bytes = _a6SuffixOctets(self.prefixLen)
         self.ttl = str2time(ttl)
 
     def encode(self, strio, compDict=None):
@@ -1606,7 +1617,9 @@ class Record_A6(tputil.FancyStrMixin, tputil.FancyEqMixin):
 
     def decode(self, strio, length=None):
         self.prefixLen = struct.unpack("!B", readPrecisely(strio, 1))[0]
-        self.bytes = int((128 - self.prefixLen) / 8.0)
+        # RFC 2874 section 3.1: "exactly enough octets to contain a number of
+        # bits equal to 128 minus prefix length", that is, rounded up.
+        self.bytes = _a6SuffixOctets(self.prefixLen)
         if self.bytes:
             self.suffix = b"\x00" * (16 - self.bytes) + readPrecisely(strio, self.bytes)
         if self.prefixLen:
